@@ -681,9 +681,14 @@ impl Node {
             #[cfg(edp_rs_verif)]
             edp_client::verif_hooks::yield_point("rpc:before_lock").await;
             let mut conn_guard = conn.lock().await;
-            conn_guard
+            if let Err(e) = conn_guard
                 .send_to_name(reply_to_pid, Atom::new("rex"), call_request)
-                .await?;
+                .await
+            {
+                // the call was never sent: nothing will ever answer it
+                self.pending_rpcs.remove(&pid_str);
+                return Err(e.into());
+            }
             tracing::trace!("Message sent to rex");
             #[cfg(edp_rs_verif)]
             edp_client::verif_hooks::yield_point("rpc:after_send").await;
